@@ -52,7 +52,7 @@ def check(v):
                     return
     v.assumptions.append("PARTIAL: that borrowed results cannot outlive their owner for ALL safe client programs is a statement about Rust's borrow checker, not expressible in the model; a family of probe programs (one per access path) is compiled on every run and compared with the recorded classification")
     v.assumptions.append("the ledger model abstracts each loader to its resource steps; the tie to the code is the measurement of heap, mappings and descriptors around every load")
-    v.coverage.setdefault("samples", []).append({"theorem": "C09_failure_leaks_nothing: forall l n s live, can_stop l s = true -> load_ledger l n s live = (live, false)   (load_ledger = the loader's ownership steps run with Rust's unwinding rules)"})
+    v.coverage.setdefault("samples", []).append({"theorem": "C09_failure_leaks_nothing: forall l n s h live, can_stop l s = true -> load_ledger l n s h live = (live, false)   (h: by returned error or by panic)   (load_ledger = the loader's ownership steps run with Rust's unwinding rules)"})
 
 
 def replay(v, path):
